@@ -42,6 +42,11 @@ def _build(env, files):
         return DataIndexEntry(key=key, meta=Meta(md5=_md5(files[k])), hash_info=HashInfo("md5", _md5(files[k])))
 
     lazy, full = DataIndex(), DataIndex()
+    if cube("backend", "memory") == "sqlite":  # the lazily loaded index lives in an (in-memory) SQLite database, the reference stays a plain trie
+        from dvc_data.index.index import DataIndexTrie
+
+        _untraced_sql_layer()
+        lazy._trie = DataIndexTrie()
     for idx in (lazy, full):
         idx.storage_map.add_cache(ObjectStorage((), cache))
         if remote is not None:
@@ -74,6 +79,46 @@ def _build(env, files):
         if not k.startswith(pre):
             lazy[tuple(k.split("/"))] = file_entry(k)
     return lazy, full, cache
+
+
+def _untraced_sql_layer():
+    """sqltrie's SQLite layer (SQL text + the sqlite3 C extension) runs on concrete keys and bytes only: it executes outside tracing;
+    the JSON (de)serialising trie layers above it (sqltrie.JSONTrie, DataIndexTrie) stay traced"""
+    import functools
+    import inspect
+
+    from sqltrie.sqlite.sqlite import SQLiteTrie
+
+    if getattr(SQLiteTrie, "_vf_untraced", False):
+        return
+    SQLiteTrie._vf_untraced = True
+    for name, fn in list(vars(SQLiteTrie).items()):
+        if name.startswith("__") and name not in ("__getitem__", "__setitem__", "__delitem__", "__len__", "__iter__", "__contains__"):
+            continue
+        if isinstance(fn, (classmethod, staticmethod, property)) or not inspect.isfunction(fn):
+            continue
+        def wrap(fn=fn):
+            @functools.wraps(fn)
+            def w(*a, **k):
+                with NoTracing():
+                    r = fn(*a, **k)
+                if inspect.isgenerator(r):
+                    return _lazy_untraced(r)
+                return r
+            return w
+        setattr(SQLiteTrie, name, wrap())
+
+
+def _lazy_untraced(gen):
+    """drive a generator of the SQL layer one item at a time, each step outside tracing (laziness is behaviour: rows fetched after an
+    insertion made during the iteration are seen, exactly as without the wrapper)"""
+    while True:
+        with NoTracing():
+            try:
+                item = next(gen)
+            except StopIteration:
+                return
+        yield item
 
 
 def _proj(e):
